@@ -2,10 +2,23 @@
 
 package badgerstore
 
+import "github.com/jirenius/taskqueue"
+
 // VerifHook is called at every simulation point when set. It is only present
 // in builds with the verif tag and is used by the deterministic simulator to
 // interleave goroutines and to take crash images of the database.
 var VerifHook func(point, arg string)
+
+// VerifTaskCapacity, when positive, is the capacity of the index task queue
+// of query stores created afterwards. The simulator varies it per run so that
+// the full-queue path is reached with a handful of writes.
+var VerifTaskCapacity int
+
+func simSetup(qs *QueryStore) {
+	if VerifTaskCapacity > 0 {
+		qs.tq = taskqueue.NewTaskQueue(VerifTaskCapacity)
+	}
+}
 
 func simAt(point, arg string) {
 	if h := VerifHook; h != nil {
